@@ -293,8 +293,11 @@ def _cli_shard(d, res):
     # the same figure when two workers process several chunks each (virtual scheduler, fair default schedule)
     from .. import vmp
 
-    argv2 = ["-j", "2", "--buffer-size", "1500"] + argv
+    # about eight chunks whatever the size of the corpus (the virtual scheduler has a horizon of scheduling points)
+    argv2 = ["-j", "2", "--buffer-size", str(max(1500, os.path.getsize(inp) // 8))] + argv
     sched, r2, exc = vmp.run(lambda: clih.run_cli(argv2), policy="fair")
+    if r2 is None and not sched.deadlock and exc is None:
+        raise common.HarnessError("virtual two-core run did not complete (horizon of scheduling points)")
     if r2 is None or sched.deadlock or r2.exit != 0:
         res["viol"].append(("cli-2cores", f"run with two cores failed: {getattr(r2, 'exit', None)} {exc!r} deadlock={sched.deadlock}", case))
     else:
